@@ -16,16 +16,15 @@ import (
 )
 
 type Solver struct {
+	sh          *Shared
 	cmd         *exec.Cmd
 	in          io.WriteCloser
 	out         *bufio.Reader
-	decls       int
+	synced      int // number of entries of the shared declaration log already sent to this process
 	queries     int
 	dur         time.Duration
 	feasTimeout int
 	curTimeout  int
-	depth       int
-	globals     []string // everything sent at depth 0 (declarations + pre-state axioms)
 	workDir     string
 	errors      int
 	dead        bool
@@ -34,7 +33,7 @@ type Solver struct {
 var z3Main = "z3-new"
 var z3Cross = "z3"
 
-func newSolver(workDir string, feasMs int) *Solver {
+func newSolver(sh *Shared, workDir string, feasMs int) *Solver {
 	cmd := exec.Command(z3Main, "-in")
 	in, _ := cmd.StdinPipe()
 	out, _ := cmd.StdoutPipe()
@@ -42,7 +41,7 @@ func newSolver(workDir string, feasMs int) *Solver {
 	if err := cmd.Start(); err != nil {
 		panic(err)
 	}
-	s := &Solver{cmd: cmd, in: in, out: bufio.NewReaderSize(out, 1<<16), feasTimeout: feasMs, curTimeout: -1, workDir: workDir}
+	s := &Solver{sh: sh, cmd: cmd, in: in, out: bufio.NewReaderSize(out, 1<<16), feasTimeout: feasMs, curTimeout: -1, workDir: workDir}
 	return s
 }
 
@@ -68,23 +67,34 @@ func (s *Solver) send(x string) {
 	if _, err := fmt.Fprintln(s.in, x); err != nil {
 		s.dead = true
 	}
-	if x == "(push)" {
-		s.depth++
-	} else if x == "(pop)" {
-		s.depth--
-	} else if s.depth == 0 && !strings.HasPrefix(x, "(set-option") {
-		s.globals = append(s.globals, x)
+}
+
+// global adds a declaration or axiom to the shared log (every worker's solver and every fresh query sees it)
+func (s *Solver) global(x string) {
+	s.sh.declMu.Lock()
+	s.sh.decls = append(s.sh.decls, x)
+	s.sh.declMu.Unlock()
+}
+
+func (s *Solver) sync() {
+	s.sh.declMu.Lock()
+	d := s.sh.decls
+	s.sh.declMu.Unlock()
+	for ; s.synced < len(d); s.synced++ {
+		s.send(d[s.synced])
 	}
 }
 
 func (s *Solver) fresh(prefix string, boolean bool) string {
-	s.decls++
-	n := fmt.Sprintf("%s_%d", sanitize(prefix), s.decls)
+	sort := "Int"
 	if boolean {
-		s.send("(declare-const " + n + " Bool)")
-	} else {
-		s.send("(declare-const " + n + " Int)")
+		sort = "Bool"
 	}
+	s.sh.declMu.Lock()
+	s.sh.declN++
+	n := fmt.Sprintf("%s_%d", sanitize(prefix), s.sh.declN)
+	s.sh.decls = append(s.sh.decls, "(declare-const "+n+" "+sort+")")
+	s.sh.declMu.Unlock()
 	return n
 }
 
@@ -104,7 +114,7 @@ func sanitize(p string) string {
 }
 
 // axiom adds a global fact about the symbolic pre-state (visible to every path and every fresh query).
-func (s *Solver) axiom(t string) { s.send("(assert " + t + ")") }
+func (s *Solver) axiom(t string) { s.global("(assert " + t + ")") }
 
 func (s *Solver) readLine() string {
 	line, err := s.out.ReadString('\n')
@@ -122,6 +132,7 @@ func (s *Solver) check(pc []string, extra ...string) string {
 		return "unknown"
 	}
 	t0 := time.Now()
+	s.sync()
 	if s.feasTimeout != s.curTimeout {
 		s.send(fmt.Sprintf("(set-option :timeout %d)", s.feasTimeout))
 		s.curTimeout = s.feasTimeout
@@ -179,7 +190,10 @@ var finalSeq int64
 // buildQuery renders a self-contained SMT-LIB file.
 func (s *Solver) buildQuery(pc []string, extra []string, evals []string) string {
 	var sb strings.Builder
-	for _, g := range s.globals {
+	s.sh.declMu.Lock()
+	d := s.sh.decls
+	s.sh.declMu.Unlock()
+	for _, g := range d {
 		sb.WriteString(g)
 		sb.WriteByte('\n')
 	}
